@@ -23,7 +23,9 @@ LOCK=build/.build.lock
   build/bin/mcrewrite -repo /repo -out build/ov -shim mc -hooks hooks >build/ov/rewrite.log 2>&1 || { cat build/ov/rewrite.log; exit 2; }
   RACE=""
   [ -f checks/$id/RACE ] && RACE="-race"
-  go build $RACE -overlay build/ov/overlay.json -o build/bin/$id ./checks/$id || exit 2
+  OV=build/ov/overlay.json
+  [ -f checks/$id/OSHOOK ] && OV=build/ov/overlay_os.json
+  go build $RACE -overlay $OV -o build/bin/$id ./checks/$id || exit 2
 ) 9>$LOCK
 rc=$?
 if [ $rc -ne 0 ]; then
